@@ -93,7 +93,7 @@ def val_text(kind, v):
     if kind in ("i", "ai"):
         return "%d" % v
     if kind in ("f", "af"):
-        return float_text(v)
+        return ftext(b2f(v))        # defaults are exact three-decimal numbers
     if kind in ("t", "at"):
         return "true" if v else "false"
     if kind in ("o", "ao"):
@@ -969,12 +969,12 @@ def check_lines(ref, st, lines_text):
 def states_equal(ref, sa, sb):
     """every port that exists in A exists in B with the same contents (floats: ==)"""
     for i, fp in enumerate(ref.flat):
+        # below a switched-off "enabled by" toggle the walk does not go: not part of the saved state
+        if not all(sa[g] is not None and bool(sa[g][0]) for g in fp.soft):
+            continue
         if (sa[i] is None) != (sb[i] is None):
             return "%s exists in one instance only" % fp.path
         if sa[i] is None:
-            continue
-        # below a switched-off "enabled by" toggle the walk does not go: not part of the saved state
-        if not all(sa[g] is not None and bool(sa[g][0]) for g in fp.soft):
             continue
         if len(sa[i]) != len(sb[i]) or not all(feq(fp.leaf.kind, a, b) for a, b in zip(sa[i], sb[i])):
             return "%s is %r in the saved instance and %r after loading" % (fp.path, sa[i], sb[i])
